@@ -6,6 +6,10 @@ import (
 	"fmt"
 	"math/rand/v2"
 	"net/netip"
+	"sort"
+	"strconv"
+	"strings"
+	"time"
 
 	"github.com/miekg/dns"
 
@@ -15,19 +19,44 @@ import (
 )
 
 // (iii) per-client views: the FIRST view in declaration order whose networks
-// contain the client (same containment rule as the access list) answers.
+// contain the client (same containment rule as the access list) decides.
 //
-// View i answers  *.v.c17.test. / exact.v.c17.test.  with 198.18.<id>.x and
-// 2001:db8:c17:<id>::x, where <id> is the view's identity (stable across the
-// generated declaration orders); the stub answers with 10.x / 2001:db8:<h>::
-// provenance markers, so the reply tells which view — or resolution — answered.
+// Generated view sets: networks drawn from nesting chains (/8 > /16 > /24 > /32
+// along one address, both families), a shared pool (narrower / wider versions),
+// duplicates of other views' networks, disjoint cluster prefixes, unparsable
+// entries and catch-alls, declared in random orders. Every view has its own
+// generated record set over a fixed universe of owners (apex, exact hosts,
+// nested wildcards) x types (A, AAAA, TXT, MX); every record carries a marker
+// <view id, record number> in its rdata, the stub answers with the stack's
+// provenance markers, so a reply tells which view — or resolution — produced
+// it and which of the view's records it is.
+//
+// Reference (independent of views.go): the first view, in declaration order,
+// whose parsable networks contain the client (4-in-6 unmapped) is THE view.
+//   - it holds a record of the question's name and type (exact owner, or a
+//     wildcard owner strictly above the name): the reply carries records of
+//     that view only, each one a record of that view that covers the name with
+//     that type, and resolution is not entered;
+//   - it holds none (name absent, or held with other types only): sdns falls
+//     through to the next handler (documented in views.ServeDNS) — the reply
+//     then carries NO view's data; in particular never the data of a later view
+//     that contains the client as well. Whether the fall-through ends in
+//     resolution is counted, not judged;
+//   - no view contains the client: no view's data, the reply comes from
+//     resolution or the cache.
+
+type viewRec struct {
+	Owner string `json:"owner"` // absolute owner as written in the configuration
+	Type  uint16 `json:"type"`
+	N     int    `json:"rec"` // record number, unique within the view (1..250)
+}
 
 type viewSpec struct {
-	ID       int      `json:"id"`
-	Networks []string `json:"networks"`
-	HasA     bool     `json:"has_a"`
-	HasAAAA  bool     `json:"has_aaaa"`
-	Junk     bool     `json:"junk_answers,omitempty"`
+	ID       int       `json:"id"`
+	Networks []string  `json:"networks"`
+	Profile  string    `json:"profile,omitempty"`
+	Recs     []viewRec `json:"records"`
+	Junk     bool      `json:"junk_answers,omitempty"` // unparsable answer strings interleaved
 }
 
 type viewCase struct {
@@ -39,64 +68,340 @@ type viewCase struct {
 	Source string     `json:"source"`
 	Form16 bool       `json:"form16,omitempty"`
 	Port   int        `json:"port"`
-	Path   string     `json:"path"`
+	Path   string     `json:"path"`             // in-process entry, or "socket-<transport>"
+	Dual   bool       `json:"dual_stack_listener,omitempty"`
 	QName  string     `json:"qname"`
 	QType  uint16     `json:"qtype"`
 	Query  string     `json:"query_hex,omitempty"`
 	Reply  string     `json:"reply_hex,omitempty"`
 }
 
-const viewZone = "v.c17.test."
+const (
+	viewZone  = "v.c17.test."
+	viewZone2 = "w.c17.test."
+)
+
+// the owner universe of generated view records
+var viewOwners = []string{
+	viewZone, // apex: not covered by *.v.c17.test.
+	"exact." + viewZone,
+	"www." + viewZone,
+	"sub." + viewZone,
+	"a.sub." + viewZone,
+	"deep.a.sub." + viewZone,
+	"*." + viewZone,
+	"*.sub." + viewZone,
+	"*.a.sub." + viewZone,
+	"*." + viewZone2,
+	"host." + viewZone2,
+}
+
+var viewTypes = []uint16{dns.TypeA, dns.TypeAAAA, dns.TypeTXT, dns.TypeMX}
+
+func (rec viewRec) text(id int) string {
+	switch rec.Type {
+	case dns.TypeA:
+		return fmt.Sprintf("%s 60 IN A 198.18.%d.%d", rec.Owner, id, rec.N)
+	case dns.TypeAAAA:
+		return fmt.Sprintf("%s 60 IN AAAA 2001:db8:c17:%x::%x", rec.Owner, id, rec.N)
+	case dns.TypeTXT:
+		return fmt.Sprintf("%s 60 IN TXT \"c17view=%d rec=%d\"", rec.Owner, id, rec.N)
+	case dns.TypeMX:
+		return fmt.Sprintf("%s 60 IN MX 10 r%d.view%d.mark.c17.test.", rec.Owner, rec.N, id)
+	}
+	return ""
+}
 
 func (v viewSpec) config() config.ViewConfig {
 	vc := config.ViewConfig{Zone: fmt.Sprintf("view-%d", v.ID), Networks: v.Networks}
 	if v.Junk {
 		vc.Answers = append(vc.Answers, "this is not a resource record", "*."+viewZone+" 60 IN A not-an-address")
 	}
-	if v.HasA {
-		vc.Answers = append(vc.Answers,
-			fmt.Sprintf("*.%s 60 IN A 198.18.%d.1", viewZone, v.ID),
-			fmt.Sprintf("exact.%s 60 IN A 198.18.%d.2", viewZone, v.ID))
-	}
-	if v.HasAAAA {
-		vc.Answers = append(vc.Answers, fmt.Sprintf("*.%s 60 IN AAAA 2001:db8:c17:%x::1", viewZone, v.ID))
+	for i, rec := range v.Recs {
+		vc.Answers = append(vc.Answers, rec.text(v.ID))
+		if v.Junk && i%3 == 0 {
+			vc.Answers = append(vc.Answers, "exact."+viewZone+" 60 IN AAAA 198.18.0.1")
+		}
 	}
 	return vc
 }
 
-// viewOf identifies which view's record rr is (-1: none of ours).
-func viewOf(rr dns.RR) int {
+type viewMarker struct{ ID, N int }
+
+// viewMark reads the <view id, record number> marker out of a record.
+func viewMark(rr dns.RR) (viewMarker, bool) {
 	switch x := rr.(type) {
 	case *dns.A:
 		if ip := x.A.To4(); ip != nil && ip[0] == 198 && ip[1] == 18 {
-			return int(ip[2])
+			return viewMarker{int(ip[2]), int(ip[3])}, true
 		}
 	case *dns.AAAA:
 		if a, ok := netip.AddrFromSlice(x.AAAA); ok {
 			b := a.As16()
 			if b[0] == 0x20 && b[1] == 0x01 && b[2] == 0x0d && b[3] == 0xb8 && b[4] == 0x0c && b[5] == 0x17 {
 				if id := int(b[6])<<8 | int(b[7]); id > 0 {
-					return id
+					return viewMarker{id, int(b[14])<<8 | int(b[15])}, true
+				}
+			}
+		}
+	case *dns.TXT:
+		if len(x.Txt) == 1 && strings.HasPrefix(x.Txt[0], "c17view=") {
+			var m viewMarker
+			if _, err := fmt.Sscanf(x.Txt[0], "c17view=%d rec=%d", &m.ID, &m.N); err == nil {
+				return m, true
+			}
+		}
+	case *dns.MX:
+		mx := strings.ToLower(x.Mx)
+		if strings.HasSuffix(mx, ".mark.c17.test.") {
+			f := strings.Split(mx, ".")
+			if len(f) >= 2 && strings.HasPrefix(f[0], "r") && strings.HasPrefix(f[1], "view") {
+				n, e1 := strconv.Atoi(f[0][1:])
+				id, e2 := strconv.Atoi(f[1][4:])
+				if e1 == nil && e2 == nil {
+					return viewMarker{id, n}, true
 				}
 			}
 		}
 	}
+	return viewMarker{}, false
+}
+
+// viewOf identifies which view's record rr is (-1: none of ours).
+func viewOf(rr dns.RR) int {
+	if m, ok := viewMark(rr); ok {
+		return m.ID
+	}
 	return -1
 }
 
+// ---------------------------------------------------------------------
+// reference: which records of a view are "a record of that name and type"
+// ---------------------------------------------------------------------
+
+func nameLabels(name string) []string {
+	name = strings.TrimSuffix(strings.ToLower(name), ".")
+	if name == "" {
+		return nil
+	}
+	return strings.Split(name, ".") // generated names carry no escapes
+}
+
+// ownerCovers: exact owner (depth -1, true) or wildcard owner whose parent is
+// a proper ancestor of qname (depth = labels of that parent).
+func ownerCovers(owner, qname string) (depth int, ok bool) {
+	ol, ql := nameLabels(owner), nameLabels(qname)
+	if len(ol) > 0 && ol[0] == "*" {
+		parent := ol[1:]
+		if len(ql) <= len(parent) {
+			return 0, false
+		}
+		off := len(ql) - len(parent)
+		for i := range parent {
+			if ql[off+i] != parent[i] {
+				return 0, false
+			}
+		}
+		return len(parent), true
+	}
+	if len(ol) != len(ql) {
+		return 0, false
+	}
+	for i := range ol {
+		if ol[i] != ql[i] {
+			return 0, false
+		}
+	}
+	return -1, true
+}
+
+// covering: every record of the view with this type whose owner covers qname.
+func (v viewSpec) covering(qname string, qtype uint16) map[int]bool {
+	out := map[int]bool{}
+	for _, rec := range v.Recs {
+		if rec.Type != qtype {
+			continue
+		}
+		if _, ok := ownerCovers(rec.Owner, qname); ok {
+			out[rec.N] = true
+		}
+	}
+	return out
+}
+
+// documented: the records views.go documents as the answer — the exact owner's
+// records of that type, else those of the closest enclosing wildcard.
+func (v viewSpec) documented(qname string, qtype uint16) map[int]bool {
+	exact, wild := map[int]bool{}, map[int]bool{}
+	best := -1
+	for _, rec := range v.Recs {
+		if rec.Type != qtype {
+			continue
+		}
+		d, ok := ownerCovers(rec.Owner, qname)
+		switch {
+		case !ok:
+		case d < 0:
+			exact[rec.N] = true
+		case d > best:
+			best = d
+			wild = map[int]bool{rec.N: true}
+		case d == best:
+			wild[rec.N] = true
+		}
+	}
+	if len(exact) > 0 {
+		return exact
+	}
+	return wild
+}
+
+// holdsOtherType: the view has the name (exactly or by wildcard) with a
+// different type only.
+func (v viewSpec) holdsOtherType(qname string, qtype uint16) bool {
+	for _, rec := range v.Recs {
+		if rec.Type == qtype {
+			continue
+		}
+		if _, ok := ownerCovers(rec.Owner, qname); ok {
+			return true
+		}
+	}
+	return false
+}
+
+// containingViews returns the indices (declaration order) of the views whose
+// parsable networks contain a.
+func containingViews(views []viewSpec, a netip.Addr) []int {
+	var out []int
+	for i, v := range views {
+		good, _ := parseGood(v.Networks)
+		if refContains(good, a) {
+			out = append(out, i)
+		}
+	}
+	return out
+}
+
+// ---------------------------------------------------------------------
+// generators
+// ---------------------------------------------------------------------
+
+var viewProfiles = []string{"empty", "junk-only", "full", "sparse", "sparse", "wild-a", "host-override", "host-override", "no-wildcards"}
+
+func genViewRecords(rng *rand.Rand, v *viewSpec) {
+	v.Profile = viewProfiles[rng.IntN(len(viewProfiles))]
+	n := 0
+	add := func(owner string, t uint16) {
+		k := 1
+		if rng.IntN(4) == 0 {
+			k = 2
+		}
+		if rng.IntN(8) == 0 {
+			owner = strings.ToUpper(owner) // owners are matched on the canonical name
+		}
+		for i := 0; i < k && n < 250; i++ {
+			n++
+			v.Recs = append(v.Recs, viewRec{Owner: owner, Type: t, N: n})
+		}
+	}
+	isWild := func(o string) bool { return strings.HasPrefix(o, "*.") }
+	switch v.Profile {
+	case "empty":
+	case "junk-only":
+		v.Junk = true
+	case "full":
+		for _, o := range viewOwners {
+			add(o, dns.TypeA)
+			add(o, dns.TypeAAAA)
+			if rng.IntN(2) == 0 {
+				add(o, dns.TypeTXT)
+			}
+			if rng.IntN(3) == 0 {
+				add(o, dns.TypeMX)
+			}
+		}
+	case "sparse":
+		for _, o := range viewOwners {
+			for _, t := range viewTypes {
+				if rng.IntN(3) == 0 {
+					add(o, t)
+				}
+			}
+		}
+	case "wild-a":
+		add("*."+viewZone, dns.TypeA)
+		if rng.IntN(2) == 0 {
+			add("exact."+viewZone, dns.TypeA)
+		}
+		if rng.IntN(2) == 0 {
+			add("*.sub."+viewZone, dns.TypeAAAA)
+		}
+	case "host-override": // the typical use: one or two hosts overridden for a subnet
+		for i := 0; i < 1+rng.IntN(2); i++ {
+			o := viewOwners[rng.IntN(len(viewOwners))]
+			add(o, viewTypes[rng.IntN(2)])
+		}
+	case "no-wildcards":
+		for _, o := range viewOwners {
+			if !isWild(o) && rng.IntN(3) > 0 {
+				add(o, viewTypes[rng.IntN(len(viewTypes))])
+				if rng.IntN(2) == 0 {
+					add(o, viewTypes[rng.IntN(len(viewTypes))])
+				}
+			}
+		}
+	}
+	if v.Profile != "empty" && v.Profile != "junk-only" && rng.IntN(6) == 0 {
+		v.Junk = true
+	}
+}
+
+// nestChain: prefixes of increasing length along one address.
+func nestChain(rng *rand.Rand, base netip.Addr) []string {
+	var lens []int
+	if base.Is4() {
+		lens = []int{0, 6, 8, 12, 14, 16, 20, 22, 24, 25, 28, 30, 31, 32}
+	} else {
+		lens = []int{0, 3, 16, 32, 40, 48, 56, 64, 96, 104, 112, 120, 126, 127, 128}
+	}
+	rng.Shuffle(len(lens), func(i, j int) { lens[i], lens[j] = lens[j], lens[i] })
+	lens = lens[:3+rng.IntN(3)]
+	sort.Ints(lens)
+	out := make([]string, len(lens))
+	for i, l := range lens {
+		p := netip.PrefixFrom(base, l)
+		if rng.IntN(2) == 0 {
+			p = p.Masked() // otherwise host bits left set
+		}
+		out[i] = p.String()
+	}
+	return out
+}
+
 func genViews(rng *rand.Rand) []viewSpec {
-	n := 2 + rng.IntN(4)
+	return genViewsOn(rng, clusterAddr, clusterPrefix)
+}
+
+// genViewsOn generates a view set; addr / prefix draw addresses and prefixes
+// of the region the probe sources live in.
+func genViewsOn(rng *rand.Rand, addr func(*rand.Rand) netip.Addr, prefix func(*rand.Rand) string) []viewSpec {
+	n := 2 + rng.IntN(5)
 	vs := make([]viewSpec, n)
-	// a shared pool of prefixes so the views overlap and nest
+	// nesting chains and a shared pool so the views overlap and nest
+	var chains [][]string
+	for i := 0; i < 1+rng.IntN(3); i++ {
+		chains = append(chains, nestChain(rng, addr(rng)))
+	}
 	pool := make([]string, 0, 8)
 	for i := 0; i < 3+rng.IntN(5); i++ {
-		pool = append(pool, clusterPrefix(rng))
+		pool = append(pool, prefix(rng))
 	}
 	for i := range vs {
-		v := viewSpec{ID: i + 1, HasA: true, HasAAAA: true}
+		v := viewSpec{ID: i + 1}
 		k := 1 + rng.IntN(3)
 		for j := 0; j < k; j++ {
-			switch rng.IntN(8) {
+			switch rng.IntN(12) {
 			case 0:
 				v.Networks = append(v.Networks, badEntries[rng.IntN(len(badEntries))])
 			case 1, 2: // narrower or wider version of a pool member
@@ -110,24 +415,34 @@ func genViews(rng *rand.Rand) []viewSpec {
 					}
 					v.Networks = append(v.Networks, fmt.Sprintf("%s/%d", p.Addr(), bits))
 				}
-			case 3:
-				v.Networks = append(v.Networks, clusterPrefix(rng))
+			case 3: // disjoint-ish fresh prefix
+				v.Networks = append(v.Networks, prefix(rng))
+			case 4: // duplicate of a network another view already has
+				if i > 0 {
+					if o := vs[rng.IntN(i)].Networks; len(o) > 0 {
+						v.Networks = append(v.Networks, o[rng.IntN(len(o))])
+						break
+					}
+				}
+				fallthrough
+			case 5, 6, 7, 8: // a member of a nesting chain
+				c := chains[rng.IntN(len(chains))]
+				v.Networks = append(v.Networks, c[rng.IntN(len(c))])
 			default:
 				v.Networks = append(v.Networks, pool[rng.IntN(len(pool))])
 			}
 		}
-		switch rng.IntN(10) {
-		case 0:
-			v.HasAAAA = false
-		case 1:
-			v.HasA = false
-		case 2:
-			v.Junk = true
-		}
 		if rng.IntN(12) == 0 {
 			v.Networks = []string{badEntries[rng.IntN(len(badEntries))]} // contains nobody
 		}
+		genViewRecords(rng, &v)
 		vs[i] = v
+	}
+	if n > 1 && rng.IntN(4) == 0 { // two views with identical networks
+		a, b := rng.IntN(n), rng.IntN(n)
+		if a != b {
+			vs[b].Networks = append([]string(nil), vs[a].Networks...)
+		}
 	}
 	if rng.IntN(3) == 0 { // a catch-all somewhere in the order
 		k := rng.IntN(n)
@@ -136,19 +451,63 @@ func genViews(rng *rand.Rand) []viewSpec {
 	return vs
 }
 
-// firstView returns the index (in declaration order) of the first view whose
-// parsable networks contain a, or -1.
-func firstView(views []viewSpec, a netip.Addr) int {
-	for i, v := range views {
-		good, _ := parseGood(v.Networks)
-		if refContains(good, a) {
-			return i
-		}
+// genViewQuestion draws one question from the probe universe.
+func genViewQuestion(rng *rand.Rand, uniq string) (string, uint16) {
+	var qname string
+	switch rng.IntN(16) {
+	case 0:
+		qname = viewZone // apex
+	case 1, 2:
+		qname = "exact." + viewZone
+	case 3:
+		qname = []string{"www.", "sub.", "a.sub.", "deep.a.sub."}[rng.IntN(4)] + viewZone
+	case 4, 5, 6:
+		qname = "h" + uniq + "." + viewZone // only *.v
+	case 7, 8:
+		qname = "h" + uniq + ".sub." + viewZone // *.sub, else *.v
+	case 9:
+		qname = "h" + uniq + ".a.sub." + viewZone // *.a.sub, *.sub, *.v
+	case 10:
+		qname = "x.h" + uniq + ".a.sub." + viewZone // several labels below the wildcard
+	case 11:
+		qname = []string{"xsub.", "asub.", "x-a.sub."}[rng.IntN(3)] + viewZone // label-boundary near misses
+	case 12:
+		qname = []string{"h" + uniq + ".", "host."}[rng.IntN(2)] + viewZone2
+	case 13:
+		qname = viewZone2 // apex of the second zone: nobody holds it
+	case 14:
+		qname = "x" + viewZone // "xv.c17.test.": the zone name is a string suffix, not a label suffix
+	default:
+		qname = "n" + uniq + ".nobody.c17.test." // no view holds it
 	}
-	return -1
+	var qtype uint16
+	switch rng.IntN(12) {
+	case 0, 1, 2, 3, 4:
+		qtype = dns.TypeA
+	case 5, 6, 7:
+		qtype = dns.TypeAAAA
+	case 8:
+		qtype = dns.TypeTXT
+	case 9:
+		qtype = dns.TypeMX
+	case 10:
+		qtype = dns.TypeSRV // no view holds this type: "name held with other types only"
+	default:
+		qtype = viewTypes[rng.IntN(len(viewTypes))]
+	}
+	if rng.IntN(6) == 0 { // views match on the canonical name
+		b := []byte(qname)
+		for i := range b {
+			if b[i] >= 'a' && b[i] <= 'z' && rng.IntN(2) == 0 {
+				b[i] -= 'a' - 'A'
+			}
+		}
+		qname = string(b)
+	}
+	return qname, qtype
 }
 
-func newViewStack(r *vlib.Run, acl []string, views []viewSpec) *stack.Stack {
+func newViewStack(r *vlib.Run, acl []string, views []viewSpec, listen *stack.Listen) *stack.Stack {
 	cfg := stack.DefaultConfig()
 	if acl != nil {
 		cfg.AccessList = acl
@@ -156,15 +515,48 @@ func newViewStack(r *vlib.Run, acl []string, views []viewSpec) *stack.Stack {
 	for _, v := range views {
 		cfg.Views = append(cfg.Views, v.config())
 	}
-	st, err := stack.New(stack.Options{Config: cfg})
+	opt := stack.Options{Config: cfg}
+	if listen != nil {
+		opt.Listen = *listen
+	}
+	st, err := stack.New(opt)
 	if err != nil {
+		if listen != nil {
+			r.Count("views_sock_stack_start_failed", 1)
+			r.Note("views_sock_stack_start_error", err.Error())
+			return nil
+		}
 		r.Inconclusive("harness error: stack.New: " + err.Error())
 		return nil
 	}
 	return st
 }
 
-func judgeView(r *vlib.Run, vc viewCase, src netip.Addr, o obs) {
+// ---------------------------------------------------------------------
+// oracle
+// ---------------------------------------------------------------------
+
+func viewEntry(path string) string {
+	switch {
+	case strings.HasPrefix(path, "socket-"):
+		return "socket"
+	case isWirePath(path):
+		return "wire"
+	}
+	return "msg"
+}
+
+func viewContractTransport(path string) string {
+	if strings.HasPrefix(path, "socket-") {
+		return strings.TrimPrefix(path, "socket-")
+	}
+	return contractTransport(path)
+}
+
+// judgeView applies the views oracle to one observation. workKnown: the
+// stub / cache deltas in o are attributable to this probe alone (in-process
+// entries); socket probes run concurrently and are judged on the reply only.
+func judgeView(r *vlib.Run, vc viewCase, src netip.Addr, o obs, workKnown bool) {
 	r.Eval(1)
 	vc.Query = hex.EncodeToString(o.Query)
 	if o.Raw != nil {
@@ -174,10 +566,11 @@ func judgeView(r *vlib.Run, vc viewCase, src netip.Addr, o obs) {
 		r.Violation(vlib.Sig("panic", "views", vc.Path), fmt.Sprintf("panic escaped the server entry: %v", o.Panic), vc)
 		return
 	}
-	countContract(r, contractTransport(vc.Path), o.Query, o.Raw)
+	entry := viewEntry(vc.Path)
+	countContract(r, viewContractTransport(vc.Path), o.Query, o.Raw)
 	if vc.ACL != nil && !refAdmits(vc.ACL, src) {
 		// access control comes first: a denied client is not view-answered either
-		if o.Wrote || o.Stub != 0 || o.Hits != 0 || o.Misses != 0 {
+		if o.Wrote || (workKnown && (o.Stub != 0 || o.Hits != 0 || o.Misses != 0)) {
 			r.Violation(vlib.Sig("views", "denied-source-served", vc.Path),
 				fmt.Sprintf("source %s is outside access list %q but was served (wrote=%v stub=%d) with views configured", vc.Source, vc.ACL, o.Wrote, o.Stub), vc)
 			return
@@ -189,71 +582,164 @@ func judgeView(r *vlib.Run, vc viewCase, src netip.Addr, o obs) {
 		r.Violation(vlib.Sig("views", "no-answer", vc.Path), fmt.Sprintf("admitted source %s got no reply for %s with views configured", vc.Source, vc.QName), vc)
 		return
 	}
-	got := -1 // identity of the view whose record is in the answer
-	for _, rr := range o.Msg.Answer {
-		if id := viewOf(rr); id >= 0 {
-			got = id
-			break
+	r.Count("views_probes_"+entry, 1)
+
+	// every view marker anywhere in the reply
+	var marks []viewMarker
+	for _, sec := range [][]dns.RR{o.Msg.Answer, o.Msg.Ns, o.Msg.Extra} {
+		for _, rr := range sec {
+			if m, ok := viewMark(rr); ok {
+				marks = append(marks, m)
+			}
 		}
 	}
-	want := firstView(vc.Views, src)
-	if want < 0 {
-		if got >= 0 {
+	qt := dns.TypeToString[vc.QType]
+	containing := containingViews(vc.Views, src)
+
+	// ---- class: no view contains the client
+	if len(containing) == 0 {
+		if len(marks) > 0 {
 			r.Violation("views/unmatched-client-view-answered",
-				fmt.Sprintf("source %s lies in no view's networks but view id %d answered %s", vc.Source, got, vc.QName), vc)
+				fmt.Sprintf("source %s lies in no view's networks but view id %d answered %s/%s", vc.Source, marks[0].ID, vc.QName, qt), vc)
 			return
 		}
-		if o.Stub+o.Hits == 0 {
+		if workKnown && o.Stub+o.Hits == 0 {
 			r.Violation("views/unmatched-client-not-resolved", fmt.Sprintf("source %s lies in no view but the reply came neither from resolution nor cache", vc.Source), vc)
 			return
 		}
 		r.Count("views_unmatched_resolved", 1)
+		r.Count("views_class_no_containing_view", 1)
+		r.Count("views_class_no_containing_view_"+entry, 1)
 		return
 	}
+
+	want := containing[0]
 	w := vc.Views[want]
-	has := (vc.QType == dns.TypeA && w.HasA) || (vc.QType == dns.TypeAAAA && w.HasAAAA)
-	if !has {
-		// documented fall-through (views.ServeDNS): counted, not judged beyond
-		// "the first matching view is the only candidate"
-		r.Count("views_first_match_without_record", 1)
-		if got >= 0 && got != w.ID {
-			r.Count("views_first_match_without_record_later_view_answered", 1)
+	cover := w.covering(vc.QName, vc.QType)
+	laterContaining, laterHolding := 0, 0
+	laterID := map[int]int{} // id -> declaration position of a LATER view containing the client
+	for _, j := range containing[1:] {
+		laterContaining++
+		laterID[vc.Views[j].ID] = j
+		if len(vc.Views[j].covering(vc.QName, vc.QType)) > 0 {
+			laterHolding++
 		}
-		return
 	}
-	switch {
-	case got == w.ID:
-		r.Count("views_first_match_answered", 1)
-		if want > 0 {
-			r.Count("views_first_match_not_first_declared", 1)
+
+	// ---- class: the first containing view holds no record of that name and type
+	if len(cover) == 0 {
+		for _, m := range marks {
+			if m.ID == w.ID {
+				continue
+			}
+			if pos, ok := laterID[m.ID]; ok {
+				r.Violation("views/later-view-answered-client-of-earlier-view",
+					fmt.Sprintf("source %s: the first containing view in declaration order is id %d (position %d), which holds no %s record for %s; the reply carries record %d of view id %d (position %d), a later view that contains the client too",
+						vc.Source, w.ID, want, qt, vc.QName, m.N, m.ID, pos), vc)
+				return
+			}
+			r.Violation("views/wrong-view-answered",
+				fmt.Sprintf("source %s: first containing view in declaration order is id %d (position %d) but the reply to %s/%s carries record %d of view id %d, which does not contain the client after it", vc.Source, w.ID, want, vc.QName, qt, m.N, m.ID), vc)
+			return
 		}
-		later := 0
-		for _, v := range vc.Views[want+1:] {
-			good, _ := parseGood(v.Networks)
-			if refContains(good, src) {
-				later++
+		if len(marks) > 0 {
+			r.Violation("views/answer-not-a-record-of-that-name-and-type",
+				fmt.Sprintf("source %s: view id %d holds no %s record whose owner covers %s, yet the reply carries its record %d", vc.Source, w.ID, qt, vc.QName, marks[0].N), vc)
+			return
+		}
+		r.Count("views_first_match_without_record", 1)
+		switch {
+		case laterHolding > 0:
+			r.Count("views_class_first_lacks_later_holds", 1)
+			r.Count("views_class_first_lacks_later_holds_"+entry, 1)
+		case laterContaining > 0:
+			r.Count("views_class_first_lacks_later_lacks_too", 1)
+		default:
+			r.Count("views_class_first_lacks_only_view", 1)
+		}
+		if w.holdsOtherType(vc.QName, vc.QType) {
+			r.Count("views_first_lacks_name_held_with_other_types", 1)
+		} else {
+			r.Count("views_first_lacks_name_not_held", 1)
+		}
+		if len(w.Recs) == 0 {
+			r.Count("views_first_lacks_view_without_any_record", 1)
+		}
+		if workKnown {
+			// documented fall-through: counted, not judged
+			if o.Stub+o.Hits > 0 {
+				r.Count("views_first_lacks_fell_through_to_resolution", 1)
+			} else {
+				r.Count("views_first_lacks_other_reply", 1)
 			}
 		}
-		if later > 0 {
-			r.Count("views_overlap_resolved_by_order", 1)
-		}
-		if o.Stub != 0 {
-			r.Violation("views/view-answer-also-resolved", fmt.Sprintf("view id %d answered %s for %s yet the stub was called %d time(s)", got, vc.QName, vc.Source, o.Stub), vc)
-		}
-	case got >= 0:
-		r.Violation("views/wrong-view-answered",
-			fmt.Sprintf("source %s: first containing view in declaration order is id %d (position %d) but view id %d answered %s", vc.Source, w.ID, want, got, vc.QName), vc)
-	default:
+		return
+	}
+
+	// ---- class: the first containing view holds a record of that name and type
+	if len(marks) == 0 {
 		r.Violation("views/matched-client-not-view-answered",
-			fmt.Sprintf("source %s lies in view id %d (position %d) which holds a record for %s/%s, but the reply is not the view's", vc.Source, w.ID, want, vc.QName, dns.TypeToString[vc.QType]), vc)
+			fmt.Sprintf("source %s lies in view id %d (position %d) which holds a record for %s/%s, but the reply is not the view's", vc.Source, w.ID, want, vc.QName, qt), vc)
+		return
+	}
+	got := map[int]bool{}
+	for _, m := range marks {
+		if m.ID != w.ID {
+			r.Violation("views/wrong-view-answered",
+				fmt.Sprintf("source %s: first containing view in declaration order is id %d (position %d) but view id %d answered %s/%s", vc.Source, w.ID, want, m.ID, vc.QName, qt), vc)
+			return
+		}
+		if !cover[m.N] {
+			r.Violation("views/answer-not-a-record-of-that-name-and-type",
+				fmt.Sprintf("source %s: the reply to %s/%s carries record %d of view id %d, which is not a %s record whose owner covers that name", vc.Source, vc.QName, qt, m.N, w.ID, qt), vc)
+			return
+		}
+		got[m.N] = true
+	}
+	for _, rr := range o.Msg.Answer {
+		if _, ok := viewMark(rr); !ok {
+			r.Violation("views/view-answer-mixed-with-other-data",
+				fmt.Sprintf("source %s: view id %d answered %s/%s but the answer section also carries %s", vc.Source, w.ID, vc.QName, qt, rr.String()), vc)
+			return
+		}
+	}
+	if workKnown && o.Stub != 0 {
+		r.Violation("views/view-answer-also-resolved", fmt.Sprintf("view id %d answered %s for %s yet the stub was called %d time(s)", w.ID, vc.QName, vc.Source, o.Stub), vc)
+		return
+	}
+	r.Count("views_first_match_answered", 1)
+	r.Count("views_class_first_holds", 1)
+	r.Count("views_class_first_holds_"+entry, 1)
+	if want > 0 {
+		r.Count("views_first_match_not_first_declared", 1)
+	}
+	if laterContaining > 0 {
+		r.Count("views_overlap_resolved_by_order", 1)
+	}
+	if laterHolding > 0 {
+		r.Count("views_first_holds_later_holds_too", 1)
+	}
+	doc := w.documented(vc.QName, vc.QType)
+	same := len(doc) == len(got)
+	for n := range doc {
+		same = same && got[n]
+	}
+	if same {
+		r.Count("views_rrset_as_documented", 1) // exact owner over wildcard, closest wildcard
+	} else {
+		r.Count("views_rrset_other_than_documented", 1) // not a C17 matter: counted only
 	}
 }
 
 func viewProbe(r *vlib.Run, st *stack.Stack, vc viewCase, src srcSpec, prng *rand.Rand) {
 	q := buildQuery(prng, vc.QName, vc.QType)
 	o := serveInproc(st, src, vc.Path, q)
-	judgeView(r, vc, src.Addr, o)
+	judgeView(r, vc, src.Addr, o, true)
 }
+
+// ---------------------------------------------------------------------
+// in-process driver
+// ---------------------------------------------------------------------
 
 func runViews(r *vlib.Run) {
 	n := r.N(60, 1500)
@@ -272,19 +758,20 @@ func runViews(r *vlib.Run) {
 			nets = append(nets, v.Networks)
 		}
 		sources := genSources(rng, nets, r.N(30, 50))
-		orders := 2
+		orders := 3
 		for ord := 0; ord < orders; ord++ {
 			views := append([]viewSpec(nil), base...)
 			if ord > 0 {
 				rng.Shuffle(len(views), func(i, j int) { views[i], views[j] = views[j], views[i] })
 			}
-			st := newViewStack(r, acl, views)
+			st := newViewStack(r, acl, views, nil)
 			if st == nil {
 				return
 			}
+			before := [3]int64{r.Counter("views_class_first_holds"), r.Counter("views_class_first_lacks_later_holds"), r.Counter("views_class_no_containing_view")}
 			seq := 0
 			for _, src := range sources {
-				for k := 0; k < 3; k++ {
+				for k := 0; k < 4; k++ {
 					seq++
 					prng := rand.New(rand.NewPCG(uint64(ci)<<24|uint64(ord)<<20|uint64(seq), 0x71e75))
 					path := inprocPaths[prng.IntN(len(inprocPaths))]
@@ -293,20 +780,7 @@ func runViews(r *vlib.Run) {
 					} else if k == 1 {
 						path = []string{"msg-doh", "msg-doq", "msg-tcp"}[prng.IntN(3)]
 					}
-					qname := fmt.Sprintf("h%d-%d-%d.%s", ci, ord, seq, viewZone)
-					qtype := dns.TypeA
-					switch prng.IntN(5) {
-					case 0:
-						qname = "exact." + viewZone
-					case 1, 2:
-						qtype = dns.TypeAAAA
-					}
-					if prng.IntN(6) == 0 {
-						qname = "H" + qname[1:] // case: views match on the canonical name
-						if qname == "Hxact."+viewZone {
-							qname = "Exact." + viewZone
-						}
-					}
+					qname, qtype := genViewQuestion(prng, fmt.Sprintf("%d-%d-%d", ci, ord, seq))
 					vc := viewCase{Part: "views", Case: ci, Order: ord, ACL: acl, Views: views, Source: src.Addr.String(),
 						Form16: src.Form16, Port: src.Port, Path: path, QName: qname, QType: qtype}
 					viewProbe(r, st, vc, src, prng)
@@ -315,18 +789,169 @@ func runViews(r *vlib.Run) {
 			st.Close()
 			r.Count("views_stacks", 1)
 			r.DistinctIn("view_orders", fmt.Sprintf("%d/%v", ci, views))
+			if r.Counter("views_class_first_holds") > before[0] && r.Counter("views_class_first_lacks_later_holds") > before[1] && r.Counter("views_class_no_containing_view") > before[2] {
+				r.DistinctIn("view_sets_showing_all_three_classes", fmt.Sprintf("%d/%d", ci, ord))
+			}
 		}
 		if ci < 1 {
 			r.Sample(map[string]any{"kind": "views", "views": base, "acl": acl, "sources": len(sources), "orders": orders})
 		}
 		r.Progress("views %d/%d", ci+1, n)
 	}
+	runViewSockets(r)
+
 	r.Require("views_first_match_answered", 1000)
 	r.Require("views_first_match_not_first_declared", 200)
 	r.Require("views_overlap_resolved_by_order", 300)
 	r.Require("views_unmatched_resolved", 200)
 	r.Require("views_denied_silent", 50)
+	for _, e := range []string{"wire", "msg"} {
+		r.Require("views_class_first_holds_"+e, 400)
+		r.Require("views_class_first_lacks_later_holds_"+e, 100)
+		r.Require("views_class_no_containing_view_"+e, 100)
+	}
+	r.Require("views_class_first_holds_socket", 15)
+	r.Require("views_class_first_lacks_later_holds_socket", 8)
+	r.Require("views_class_no_containing_view_socket", 8)
+	r.Require("views_first_lacks_name_held_with_other_types", 100)
+	r.Require("views_first_lacks_name_not_held", 100)
+	r.Require("views_first_lacks_view_without_any_record", 50)
 }
+
+// ---------------------------------------------------------------------
+// sockets: views whose networks live in 127.0.0.0/8 and ::1, real transports
+// ---------------------------------------------------------------------
+
+func loopAddr(rng *rand.Rand) netip.Addr {
+	switch rng.IntN(8) {
+	case 0:
+		return netip.MustParseAddr("::1")
+	case 1:
+		var b [16]byte
+		b[15] = byte(rng.IntN(4))
+		return netip.AddrFrom16(b)
+	case 2: // the IPv4-mapped literal as an IPv6 CIDR: matches nobody
+		return netip.AddrFrom16([16]byte{10: 0xff, 11: 0xff, 12: 127, 13: 0, 14: byte(rng.IntN(2)), 15: byte(rng.UintN(256))})
+	}
+	return netip.AddrFrom4([4]byte{127, byte(rng.IntN(3)), byte(rng.IntN(2)), byte(1 + rng.IntN(254))})
+}
+
+func loopPrefix(rng *rand.Rand) string {
+	a := loopAddr(rng)
+	if a.Is4() {
+		return fmt.Sprintf("%s/%d", a, 8+rng.IntN(25))
+	}
+	if a.Is4In6() {
+		return fmt.Sprintf("%s/%d", a, 104+rng.IntN(25))
+	}
+	return fmt.Sprintf("%s/%d", a, []int{0, 64, 120, 126, 127, 128}[rng.IntN(6)])
+}
+
+func socketObs(p *sockProbe) obs {
+	o := obs{Query: p.pkt, Handled: true}
+	if p.err == nil && len(p.out) > 0 {
+		o.Wrote, o.Writes, o.Raw = true, 1, p.out
+		m := new(dns.Msg)
+		if m.Unpack(p.out) == nil {
+			o.Msg = m
+		}
+	}
+	return o
+}
+
+func runViewSockets(r *vlib.Run) {
+	n := r.N(8, 80)
+	for ci := 0; ci < n; ci++ {
+		rng := r.RandN("views-sock", ci)
+		dual := ci%2 == 1
+		views := genViewsOn(rng, loopAddr, loopPrefix)
+		// loopback view sets are small: make sure nested views with different
+		// record sets exist on every stack (narrow ones declared anywhere)
+		extra := []viewSpec{
+			{ID: len(views) + 1, Networks: []string{fmt.Sprintf("127.0.0.%d/%d", rng.IntN(256), 25+rng.IntN(6)), "::1/128"}},
+			{ID: len(views) + 2, Networks: []string{"127.0.0.0/16", "::1/128"}}, // 127.1/16 and 127.2/16 stay outside
+		}
+		genViewRecords(rng, &extra[0])
+		genViewRecords(rng, &extra[1])
+		for _, v := range extra {
+			k := rng.IntN(len(views) + 1)
+			views = append(views[:k], append([]viewSpec{v}, views[k:]...)...)
+		}
+		outside := netip.MustParsePrefix("127.2.0.0/16")
+		var all []string
+		for vi := range views {
+			if ci%2 == 0 {
+				// every other stack: no view covers 127.2.0.0/16, so sources there lie in no view
+				var keep []string
+				for _, c := range views[vi].Networks {
+					if p, err := netip.ParsePrefix(c); err == nil && p.Masked().Overlaps(outside) {
+						continue
+					}
+					keep = append(keep, c)
+				}
+				views[vi].Networks = keep
+			}
+			all = append(all, views[vi].Networks...)
+		}
+		lip := ""
+		if dual {
+			lip = "::"
+		}
+		st := newViewStack(r, nil, views, &stack.Listen{Plain: true, DoT: true, DoH: true, DoQ: true, IP: lip})
+		if st == nil {
+			continue
+		}
+		sources := loopSources(rng, all, dual, r.N(10, 12))
+		sources = append(sources, netip.AddrFrom4([4]byte{127, 2, byte(rng.IntN(2)), byte(1 + rng.IntN(254))}),
+			netip.AddrFrom4([4]byte{127, 1, 1, byte(1 + rng.IntN(254))}))
+		var probes []*sockProbe
+		var cases []viewCase
+		k := 0
+		for _, s := range sources {
+			for _, tr := range sockTransports {
+				k++
+				qname, qtype := genViewQuestion(rng, fmt.Sprintf("s%d-%d", ci, k))
+				q := buildQuery(rng, qname, qtype)
+				pkt, _ := q.Pack()
+				probes = append(probes, &sockProbe{src: s, tr: tr, qname: qname, pkt: pkt})
+				cases = append(cases, viewCase{Part: "views", Case: ci, Views: views, Source: s.String(), Path: "socket-" + tr, Dual: dual, QName: qname, QType: qtype})
+			}
+		}
+		exchangeAll(st, probes, dual, 5*time.Second)
+		for i, p := range probes {
+			if _, none := noReplyKind(p.err); none {
+				// one generous retry; a deadline never decides the verdict
+				r.Count("views_sock_retry", 1)
+				c := sockClient(st, p.src, dual, 15*time.Second)
+				p.out, p.err = c.Exchange(p.tr, p.pkt)
+				c.Close()
+			}
+			if p.err != nil {
+				if _, none := noReplyKind(p.err); none {
+					r.Inconclusive(fmt.Sprintf("views: socket probe from %s over %s unanswered after retry (no access list configured)", p.src, p.tr))
+				} else {
+					r.Count("views_sock_probe_error", 1) // bind/dial/transport trouble: no observation
+					r.Note("views_sock_last_error", fmt.Sprintf("%s %s: %v", p.src, p.tr, p.err))
+				}
+				continue
+			}
+			if dual && p.src.Is4() {
+				r.Count("views_sock_mapped_source_probes", 1)
+			}
+			judgeView(r, cases[i], p.src, socketObs(p), false)
+		}
+		st.Close()
+		r.Count("views_sock_stacks", 1)
+		if ci < 1 {
+			r.Sample(map[string]any{"kind": "views-sockets", "views": views, "dual_stack": dual, "sources": fmt.Sprint(sources), "transports": sockTransports})
+		}
+		r.Progress("views sockets %d/%d", ci+1, n)
+	}
+}
+
+// ---------------------------------------------------------------------
+// replay
+// ---------------------------------------------------------------------
 
 func replayViews(r *vlib.Run, rc json.RawMessage) {
 	var vc viewCase
@@ -339,7 +964,31 @@ func replayViews(r *vlib.Run, rc json.RawMessage) {
 		r.Inconclusive("replay: bad source: " + err.Error())
 		return
 	}
-	st := newViewStack(r, vc.ACL, vc.Views)
+	if strings.HasPrefix(vc.Path, "socket-") {
+		lip := ""
+		if vc.Dual {
+			lip = "::"
+		}
+		st := newViewStack(r, vc.ACL, vc.Views, &stack.Listen{Plain: true, DoT: true, DoH: true, DoQ: true, IP: lip})
+		if st == nil {
+			r.Inconclusive("replay: listening stack did not start")
+			return
+		}
+		defer st.Close()
+		q := buildQuery(r.RandN("replay", 0), vc.QName, vc.QType)
+		pkt, _ := q.Pack()
+		p := &sockProbe{src: a, tr: strings.TrimPrefix(vc.Path, "socket-"), qname: vc.QName, pkt: pkt}
+		c := sockClient(st, a, vc.Dual, 15*time.Second)
+		p.out, p.err = c.Exchange(p.tr, p.pkt)
+		c.Close()
+		if p.err != nil {
+			r.Inconclusive("replay: socket exchange: " + p.err.Error())
+			return
+		}
+		judgeView(r, vc, a, socketObs(p), false)
+		return
+	}
+	st := newViewStack(r, vc.ACL, vc.Views, nil)
 	if st == nil {
 		return
 	}
